@@ -125,6 +125,13 @@ theorem onPacket_done (f : Fetcher) (chan : Nat) (data : Bytes) (h : f.st = .don
   · rfl
   · simp [h]
 
+theorem onPacket_aborted (f : Fetcher) (chan : Nat) (data : Bytes) (h : f.st = .aborted) :
+    f.onPacket dec chan data = .ok ⟨f, [], false⟩ := by
+  unfold Fetcher.onPacket
+  split
+  · rfl
+  · simp [h]
+
 /-- GET_TOC_INFO + the info reply -/
 theorem onPacket_info (f : Fetcher) (hv : f.v2 = d.v2) (hst : f.st = .info)
     (hn : d.items.length < d.bound) (hc : d.crc < 4294967296) :
@@ -185,6 +192,7 @@ inductive Inv (d : Dev) (es : List Elem) : Sys → Prop
       s.sent = d.infoReq :: (List.range (s.f.req + 1)).map d.itemReq → Inv d es s
   | done (s : Sys) : s.f.st = .done → s.f.toc = tocOf es → s.finished = 1 →
       s.sent = d.infoReq :: (List.range d.items.length).map d.itemReq → Inv d es s
+  | aborted (s : Sys) : s.f.st = .aborted → s.finished = 0 → Inv d es s
 
 theorem deliver_noop (dec : Nat → Bytes → Except PyErr Elem) (d : Dev) (s : Sys) (chan : Nat) (data : Bytes)
     (h : s.f.onPacket dec chan data = .ok ⟨s.f, [], false⟩) : s.deliver dec d chan data = s := by
@@ -295,6 +303,9 @@ theorem deliver_pool_inv (s : Sys) (hi : Inv d (specElems spec d.items) s) (p : 
   | done hst htoc hfin hsent =>
     rw [deliver_noop dec d s 0 _ (onPacket_done dec s.f 0 p hst)]
     exact Inv.done _ hst htoc hfin hsent
+  | aborted hst hfin =>
+    rw [deliver_noop dec d s 0 _ (onPacket_aborted dec s.f 0 p hst)]
+    exact Inv.aborted _ hst hfin
 
 theorem step_inv (s : Sys) (hi : Inv d (specElems spec d.items) s) (c : Choice) :
     Inv d (specElems spec d.items) (s.step dec d c) := by
@@ -312,6 +323,23 @@ theorem step_inv (s : Sys) (hi : Inv d (specElems spec d.items) s) (c : Choice) 
     · rename_i h
       rw [deliver_noop dec d s chan data (onPacket_other dec s.f chan data h)]
       exact hi
+  | disconnect =>
+    simp only [Sys.step]
+    cases hi with
+    | info hst _ _ hfin _ _ _ =>
+      refine Inv.aborted _ ?_ hfin
+      simp [Fetcher.disconnect, Fetcher.registered, hst]
+    | element hst _ _ _ _ hfin _ _ _ =>
+      refine Inv.aborted _ ?_ hfin
+      simp [Fetcher.disconnect, Fetcher.registered, hst]
+    | done hst htoc hfin hsent =>
+      have : s.f.disconnect = s.f := by simp [Fetcher.disconnect, Fetcher.registered, hst]
+      rw [this]
+      exact Inv.done _ hst htoc hfin hsent
+    | aborted hst hfin =>
+      have : s.f.disconnect = s.f := by simp [Fetcher.disconnect, Fetcher.registered, hst]
+      rw [this]
+      exact Inv.aborted _ hst hfin
 
 theorem run_inv (s : Sys) (hi : Inv d (specElems spec d.items) s) (cs : List Choice) :
     Inv d (specElems spec d.items) (Sys.run dec d s cs) := by
@@ -328,6 +356,7 @@ def Sys.remaining (d : Dev) (s : Sys) : Nat :=
   | .info => d.items.length + 1
   | .element => d.items.length - s.f.req
   | .done => 0
+  | .aborted => 0
 
 section progress
 variable (d : Dev) (dec : Nat → Bytes → Except PyErr Elem) (spec : Nat → Item → Elem)
@@ -335,8 +364,8 @@ variable (d : Dev) (dec : Nat → Bytes → Except PyErr Elem) (spec : Nat → I
   (hdec : ∀ i it, d.items[i]? = some it → dec i (itemBytes it) = .ok (spec i it))
 include hn hc hdec
 
-theorem progress (s : Sys) (hi : Inv d (specElems spec d.items) s) (hnd : s.f.st ≠ .done) :
-    ∃ i, (s.step dec d (.reply i)).remaining d < s.remaining d := by
+theorem progress (s : Sys) (hi : Inv d (specElems spec d.items) s) (hnd : s.f.st ≠ .done) (hna : s.f.st ≠ .aborted) :
+    ∃ i, (s.step dec d (.reply i)).remaining d < s.remaining d ∧ (s.step dec d (.reply i)).f.st ≠ .aborted := by
   cases hi with
   | info hst hv htoc hfin hpool hmem hsent =>
     obtain ⟨i, hi⟩ := List.mem_iff_getElem?.mp hmem
@@ -350,6 +379,7 @@ theorem progress (s : Sys) (hi : Inv d (specElems spec d.items) s) (hnd : s.f.st
     · rw [if_neg hpos] at hstep
       rw [deliver_ok dec d s 0 _ _ hstep]
       simp [Sys.remaining, hst]
+  | aborted hst _ => exact absurd hst hna
   | element hst hv hnbr hreq htoc hfin hpool hmem hsent =>
     obtain ⟨i, hi⟩ := List.mem_iff_getElem?.mp hmem
     refine ⟨i, ?_⟩
@@ -363,15 +393,16 @@ theorem progress (s : Sys) (hi : Inv d (specElems spec d.items) s) (hnd : s.f.st
     · rw [if_pos hmore] at hstep
       rw [deliver_ok dec d s 0 _ _ hstep]
       simp only [Sys.remaining, hst]
-      omega
+      exact ⟨by omega, by simp⟩
     · rw [if_neg hmore] at hstep
       rw [deliver_ok dec d s 0 _ _ hstep]
       simp only [Sys.remaining, hst]
-      omega
+      exact ⟨by omega, by simp⟩
   | done hst _ _ _ => exact absurd hst hnd
 
 /-- from every reachable state some schedule of at most `remaining` deliveries finishes the download -/
-theorem completes (k : Nat) (s : Sys) (hi : Inv d (specElems spec d.items) s) (hk : s.remaining d ≤ k) :
+theorem completes (k : Nat) (s : Sys) (hi : Inv d (specElems spec d.items) s) (hna : s.f.st ≠ .aborted)
+    (hk : s.remaining d ≤ k) :
     ∃ cs : List Choice, cs.length ≤ k ∧ (Sys.run dec d s cs).f.st = .done := by
   induction k generalizing s with
   | zero =>
@@ -380,11 +411,12 @@ theorem completes (k : Nat) (s : Sys) (hi : Inv d (specElems spec d.items) s) (h
     | info hst _ _ _ _ _ _ => simp [Sys.remaining, hst] at hk
     | element hst _ _ hreq _ _ _ _ _ => simp only [Sys.remaining, hst] at hk; omega
     | done hst _ _ _ => exact hst
+    | aborted hst _ => exact absurd hst hna
   | succ k ih =>
     by_cases hd : s.f.st = .done
     · exact ⟨[], Nat.zero_le _, hd⟩
-    · obtain ⟨i, hlt⟩ := progress d dec spec hn hc hdec s hi hd
-      obtain ⟨cs, hlen, hdone⟩ := ih (s.step dec d (.reply i)) (step_inv d dec spec hn hc hdec s hi _) (by omega)
+    · obtain ⟨i, hlt, hna'⟩ := progress d dec spec hn hc hdec s hi hd hna
+      obtain ⟨cs, hlen, hdone⟩ := ih (s.step dec d (.reply i)) (step_inv d dec spec hn hc hdec s hi _) hna' (by omega)
       exact ⟨.reply i :: cs, by simp; omega, hdone⟩
 
 end progress
